@@ -379,6 +379,22 @@ class Extractor:
         self.out.append("def futureDropReschedules : Bool := %s\n" % ("true" if resched else "false"))
         self.digest["facts"]["futureDropGuarded"] = guarded
         self.digest["facts"]["futureDropReschedules"] = resched
+        # the flag `Drop` looks at: every `self.draining = <bool>` of drain_queue, in source order, and whether poll() writes it
+        def draining_writes(fn):
+            _, tk = self.src.fn_body("scheduler/scheduler_future.rs", fn, impl_of="SchedulerFuture")
+            nm = [t[1] for t in tk]
+            out = []
+            for i in range(len(nm) - 4):
+                if nm[i:i + 4] == ["self", ".", "draining", "="] and nm[i + 4] in ("true", "false"):
+                    out.append(nm[i + 4] == "true")
+            return out
+        writes = draining_writes("drain_queue")
+        poll_writes = draining_writes("poll")
+        self.out.append("/-- `SchedulerFuture::drain_queue`: the values written to `self.draining`, in source order (entry; Ready after a Pending job; Pending with the queue waiting for this future; queue empty; result arrived), and whether `poll` itself writes the flag -/")
+        self.out.append("def drainingWrites : List Bool := [%s]" % ", ".join("true" if w else "false" for w in writes))
+        self.out.append("def pollWritesDraining : Bool := %s\n" % ("true" if poll_writes else "false"))
+        self.digest["facts"]["drainingWrites"] = writes
+        self.digest["facts"]["pollWritesDraining"] = bool(poll_writes)
 
     def next_to_run(self):
         def cl(ev, r, s):
